@@ -162,15 +162,24 @@ def generate(g, tier):
 def eligible(c):
     """cases the CLI model (Model/Cli.lean: cliCompile over an abstract file system) can be asked about: compile invocations and edits
     of the project file, configuration files given by their meaning"""
-    if c.get('op') != 'cli' or c.get('meta', {}).get('family') != 'compile': return False
+    if c.get('op') != 'cli' or c.get('meta', {}).get('family') not in ('compile', 'new'): return False
     if not all(isinstance(v, dict) for v in (c.get('cfgs') or {}).values()): return False
     if c.get('home_cfg') is not None and not isinstance(c['home_cfg'], dict): return False
-    return all(i['cmd'] == 'compile' or (i['cmd'] == 'write' and 'cfg' in i) for i in c['invocations'])
+    return all(i['cmd'] in ('compile', 'new') or (i['cmd'] == 'write' and 'cfg' in i) for i in c['invocations'])
 
 
 def model_view(c):
     pre = {p: (t if isinstance(t, str) else '<bytes>') for p, t in (c.get('pre_files') or {}).items()}
-    return dict(op='cli', id=c.get('id'), files=c.get('files') or {}, cfgs=c.get('cfgs') or {}, home_cfg=c.get('home_cfg'), pre_files=pre, invocations=c['invocations'])
+    invs, made = [], set()
+    for i in c['invocations']:
+        if i['cmd'] == 'new':
+            canon = i['name'].strip().lower().replace(' ', '-')
+            d = ((i['path'] + '/') if i.get('path') else '') + canon
+            ex = d in made or any(p.startswith(d + '/') for p in pre)
+            i = dict(i, dir=d, canon=canon, exists=ex)
+            if not ex and all(ch in 'abcdefghijklmnopqrstuvwxyz1234567890-' for ch in canon): made.add(d)
+        invs.append(i)
+    return dict(op='cli', id=c.get('id'), files=c.get('files') or {}, cfgs=c.get('cfgs') or {}, home_cfg=c.get('home_cfg'), pre_files=pre, invocations=invs)
 
 
 def model_diff(c, r, m):
@@ -179,6 +188,17 @@ def model_diff(c, r, m):
     and global configuration files denote afterwards"""
     if r.get('kind') != 'cli' or m is None or m.get('kind') != 'cli': return None
     for k, (inv, st, ms) in enumerate(zip(c['invocations'], r['steps'], m['steps'])):
+        if inv['cmd'] == 'new':
+            if st['raised']: return dict(step=k, impl='raised ' + st['raised'], model='new')
+            b, a = st['before'], st['after']
+            made_i = sorted(p for p in a if p not in b and not p.endswith('/') and not p.startswith('home/'))
+            made_m = sorted(['work/' + p for p in ms.get('created') or []] + (['work/' + ms['created'][0].rsplit('/', 1)[0] + '/config.yaml'] if ms.get('cfgCreated') is not None and ms.get('created') else []))
+            if made_i != made_m: return dict(step=k, what='files created by new', impl=made_i, model=made_m)
+            if ms.get('created'):
+                base = 'work/' + ms['created'][0].rsplit('/', 1)[0]
+                if a.get(base + '/main.txt') != ms.get('mainText'): return dict(step=k, what='main file', impl=a.get(base + '/main.txt'), model=ms.get('mainText'))
+                if denote(a.get(base + '/config.yaml', '')) != ms.get('cfgCreated'): return dict(step=k, what='new project config', impl=a.get(base + '/config.yaml'), model=ms.get('cfgCreated'))
+            continue
         if inv['cmd'] != 'compile': continue
         if ms.get('kind') in ('oom', 'unsupported', 'crash'): return None       # the model declines; the state afterwards is unknown to it
         if st['raised']: return dict(step=k, impl='raised ' + st['raised'], model=ms.get('kind'))
